@@ -22,6 +22,9 @@ pub struct Sched {
     pub reads: ReadScript,
     pub stdin: bool,
     pub delays: Vec<(String, String, u32, Option<u32>)>,
+    /// CLI: a stale temporary chunk file of this many bytes (left by an earlier failed run) sits at the temp path
+    #[serde(default)]
+    pub stale_tmp: Option<u32>,
 }
 
 #[derive(Clone, Debug, Serialize, Deserialize)]
@@ -35,7 +38,7 @@ pub struct Case {
 }
 
 fn sched_strategy() -> impl Strategy<Value = Sched> {
-    (buffers_strategy(), l1::rt_shape_strategy(), read_script_strategy(), any::<bool>(), delay_strategy()).prop_map(|(buffers, rt, reads, stdin, delays)| Sched { buffers, rt, reads, stdin, delays })
+    (buffers_strategy(), l1::rt_shape_strategy(), read_script_strategy(), any::<bool>(), delay_strategy(), prop_oneof![3 => Just(None), 1 => (1u32..60_000).prop_map(Some)]).prop_map(|(buffers, rt, reads, stdin, delays, stale_tmp)| Sched { buffers, rt, reads, stdin, delays, stale_tmp })
 }
 
 fn describe_archive_diff(a: &[u8], b: &[u8]) -> String {
@@ -68,7 +71,12 @@ fn run_case(c: &Case, rec: &mut CaseRec) -> Result<(), String> {
         let a = if c.cli {
             let dir = dir.as_ref().unwrap();
             let hook = if s.delays.is_empty() { None } else { Some(l2::Hook { delay: s.delays.clone(), ..Default::default() }) };
-            let r = compress_cli(dir, &format!("r{}", i), &source, &cfg, s.stdin, &[], hook.as_ref());
+            let stale: Option<Vec<u8>> = s.stale_tmp.map(|n| {
+                let mut v = Vec::new();
+                SplitMix(n as u64).fill(&mut v, n as usize);
+                v
+            });
+            let r = compress_cli_over(dir, &format!("r{}", i), &source, &cfg, s.stdin, &[], hook.as_ref(), None, stale.as_deref());
             match r {
                 Ok((a, _)) => a,
                 Err(e) => {
@@ -93,13 +101,14 @@ fn run_case(c: &Case, rec: &mut CaseRec) -> Result<(), String> {
     // classification
     let model = ref_chunks(&c.chunker, &source, source.len() <= 1024);
     let nchunks = model.len();
-    let differ = c.runs.iter().any(|r| r.buffers != c.runs[0].buffers || r.rt != c.runs[0].rt || r.stdin != c.runs[0].stdin || r.delays != c.runs[0].delays || r.reads != c.runs[0].reads);
+    let differ = c.runs.iter().any(|r| r.buffers != c.runs[0].buffers || r.rt != c.runs[0].rt || r.stdin != c.runs[0].stdin || r.delays != c.runs[0].delays || r.reads != c.runs[0].reads || r.stale_tmp != c.runs[0].stale_tmp);
     let some_parallel = c.runs.iter().any(|r| r.buffers >= 2);
     rec.nontrivial = nchunks >= 2 && differ && some_parallel;
     rec.level = Some(if c.cli { "L2" } else { "L1" });
     rec.class(if c.cli { "cli_writer" } else { "lib_writer" });
     rec.class_if(c.runs.iter().any(|r| r.stdin) && c.runs.iter().any(|r| !r.stdin) && c.cli, "file_and_pipe");
     rec.class_if(c.runs.iter().any(|r| !r.delays.is_empty()), "delay_script");
+    rec.class_if(c.cli && c.runs.iter().any(|r| r.stale_tmp.is_some()), "stale_temp_file_in_some_run");
     // skew: a chunk at least 64x larger than the median, followed by at least 4 chunks
     if nchunks >= 6 {
         let mut lens: Vec<usize> = model.iter().map(|m| m.len).collect();
@@ -175,6 +184,7 @@ fn skew_strategy() -> impl Strategy<Value = Case> {
                 reads: ReadScript::full(),
                 stdin,
                 delays: vec![],
+                stale_tmp: None,
             };
             let runs = vec![mk(1, false, 1, 1, false), mk(8, true, 4, 8, true), mk(64, true, 2, 8, false), mk(3, true, 3, 3, false)];
             Case { source, chunker, hash_len: 64, comp, cli, runs }
